@@ -23,7 +23,10 @@ def run(ctx):
                 "(spec, attack, region, position, mask); canonical text: every text over {a, CR, LF} of length <= 5 (quick) / <= 6 (thorough) under every way of cutting it into Write "
                 "calls (TLC), the cuts with <= 3 chunks replayed on NewCanonicalTextHash; text-mode detached signatures over 5 CRLF texts (incl. 100 kB with a CR at offsets "
                 "32767 and 65535) signed and verified through every pair of 6 readers (memory, plain 32 KiB, byte-wise, cut after every CR, seeded, 7-byte), text-mode one-pass "
-                "messages read with 1/2/3/7/8/4096-byte and after-CR reads")
+                "messages read with 1/2/3/7/8/4096-byte and after-CR reads; partial body lengths: every write pattern of PGPPartial_MC (message sizes around header+size = 2^k for "
+                "k = 9, 13, 15, 16, 17 (thorough + 20, 22; in the model also 2^30 and beyond), each as ONE Write, in 32 KiB, 4 KiB, 100-byte and 1-byte pieces) fed to Sign with the "
+                "literal packet's length octets compared with the model's, Sign/Encrypt/Encrypt+Sign/SymmetricallyEncrypt(+compression) of 65522..131077 (thorough to 4 MiB) "
+                "bytes as one Write and as 32 KiB pieces, and hand-built literal packets with every partial length octet 0xe0..0xf1 (thorough ..0xf6) in 5 chunkings x 6 closing lengths")
     ctx.assumptions = [
         "numeric correctness of RSA, ElGamal, DSA, ECDSA, CFB/OCFB, S2K and the hash functions is outside the model (exercised only through round trips and GnuPG interop)",
         "regions no mechanism of RFC 4880 covers are modelled as unprotected and only explored: low bits of MPI bit counts (session-key and signature packets), DES parity bits "
@@ -35,7 +38,15 @@ def run(ctx):
         "gpg 2.2.x is the independent implementation (amplifier); its digest policy (no SHA-1/RIPEMD-160 data signatures, ECDSA digests as wide as the curve) limits the signed combinations sent to it",
         "parser totality (C45) is not claimed",
     ]
-    r = ctx.tlc_must_hold("PGPMessage_MC", cfg="PGPMessage_All.cfg", workers=2, coverage=ctx.thorough, timeout=600)
+    # three independent TLC runs, concurrently
+    import concurrent.futures
+    jobs = {"msg": dict(module="PGPMessage_MC", cfg="PGPMessage_All.cfg", workers=2, coverage=ctx.thorough, timeout=600),
+            "canon": dict(module="CanonText_MC", cfg=ctx.pick("CanonText_L5.cfg", "CanonText_L6.cfg"), workers=2, timeout=900),
+            "partial": dict(module="PGPPartial_MC", cfg=ctx.pick("PGPPartial_Q.cfg", "PGPPartial_T.cfg"), workers=2, timeout=900)}
+    with concurrent.futures.ThreadPoolExecutor(max_workers=3) as ex:
+        futs = {k: ex.submit(ctx.tlc_must_hold, **kw) for k, kw in jobs.items()}
+        tl = {k: f.result() for k, f in futs.items()}
+    r = tl["msg"]
     if ctx.thorough and r.coverage_zero:
         ctx.notes.append("PGPMessage actions never taken: %s" % r.coverage_zero)
     if not r.traces:
@@ -48,7 +59,7 @@ def run(ctx):
     ctx.extra["model_rows_allowing_silent_after_modification"] = sorted(k for k, v in classes.items() if "silent" in v and "|none|" not in k)
     # canonical text (text-mode signatures) as a state machine over chunked input: chunking invariance for every way of cutting every
     # text over {a, CR, LF} up to the bound; the (text, cut) cases with at most 3 chunks go to the real NewCanonicalTextHash
-    ct = ctx.tlc_must_hold("CanonText_MC", cfg=ctx.pick("CanonText_L5.cfg", "CanonText_L6.cfg"), workers=2, timeout=900)
+    ct = tl["canon"]
     if not ct.traces:
         raise vlib.Infra("CanonText generator produced nothing")
     if ctx.thorough:
@@ -62,12 +73,30 @@ def run(ctx):
         for c in ct.traces:
             fh.write(json.dumps(c, separators=(",", ":")) + "\n")
     ctx.extra["canonical_text_cases"] = len(ct.traces)
+    # partial body lengths: framing rule and round trip over write patterns around every chunk-size boundary (exponents up to 30 in the model)
+    pp = tl["partial"]
+    if not pp.traces:
+        raise vlib.Infra("PGPPartial generator produced nothing")
+    if ctx.thorough:
+        doc = ctx.tlc("PGPPartial_MC", cfg="PGPPartial_Mask0f.cfg", workers=1, expect_violation=True, count=False, timeout=300,
+                      note="documentation: a reader masking the partial length octet with 0x0f is refuted")
+        if doc.ok or doc.violated != "RoundTrip":
+            raise vlib.Infra("PGPPartial_Mask0f.cfg no longer yields the documented counterexample: %s" % doc.violated)
+    partial_path = ctx.tmp("partial_cases.ndjson")
+    with open(partial_path, "w") as fh:
+        for c in pp.traces:
+            fh.write(json.dumps(c, separators=(",", ":")) + "\n")
+    ctx.extra["partial_length_patterns"] = len(pp.traces)
     have_gpg = ctx.have("gpg")
     if not have_gpg:
         ctx.skipped.append("gpg not installed: interop clauses (GnuPG accepts / GnuPG-produced messages are accepted) not exercised")
     res = ctx.go_test("c44", "TestC44$", cases=r.traces, timeout=ctx.pick(600, 1800),
-                      env={"VERIF_C44_CANON": canon_path, "VERIF_C44_GPG": 1 if have_gpg else 0, "VERIF_C44_GPGMAX": ctx.pick(24, 400)})
+                      env={"VERIF_C44_CANON": canon_path, "VERIF_C44_PARTIAL": partial_path, "VERIF_C44_GPG": 1 if have_gpg else 0, "VERIF_C44_GPGMAX": ctx.pick(24, 400)})
     ctx.absorb(res)
+    # vacuity guard: partial chunks of 2^16 octets and more must have been put before the reader (and, unless a violation says why not, read back)
+    if not ctx.replay and (not ctx.extra.get("c44_partial_chunks_ge16_exercised")
+                           or (not ctx.violations and not ctx.extra.get("c44_partial_chunks_ge16_read_back"))):
+        raise vlib.Infra("vacuity guard: no partial chunk with exponent >= 16 was read back")
     if have_gpg and not (ctx.extra.get("c44_gpg_accepts_go") and ctx.extra.get("c44_go_accepts_gpg")):
         ctx.skipped.append("gpg present but no interop case completed (key import failed?)")
     ctx.exhaustive = True
